@@ -125,7 +125,41 @@ def check_complete(case, ctx):
 
 
 @st.composite
+def within_tolerance_case(draw):
+    """Adapter types of the with-indels clause, indels on, >= 1 error allowed, and a read holding the adapter with
+    1..k uniformly placed edits, flanks only where the type admits them."""
+    t = draw(st.sampled_from(sorted(oracle.NO_START_SKIP)))
+    n = draw(st.integers(4, 14))
+    seq = draw(st.text(alphabet=draw(st.sampled_from(["ACGT", "ACGT", "ACGTN", "AC"])), min_size=n, max_size=n))
+    if set(seq) <= {"N"}:
+        seq = "A" + seq[1:]
+    e = draw(st.sampled_from([0.1, 0.15, 0.2, 0.25, 0.34, 0.5, 1, 2]))
+    sn = gen.norm_seq(seq)
+    non_n = len(sn) - sn.count("N")
+    if e >= 1 and non_n <= e:
+        e = 0.25
+    spec = {"type": t, "seq": seq, "e": e, "o": draw(st.integers(1, 5)), "aw": True, "rw": False, "indels": True,
+            "via": draw(st.sampled_from(["class", "parser"]))}
+    k = max(1, int(c01.own_rate(spec) * len(sn)))
+    mid = list(sn.replace("N", "A"))
+    for _ in range(draw(st.integers(1, k))):
+        op = draw(st.sampled_from("iids"))
+        if op == "i":
+            mid.insert(draw(st.integers(0, len(mid))), draw(st.sampled_from("ACGT")))
+        elif op == "d" and len(mid) > 1:
+            del mid[draw(st.integers(0, len(mid) - 1))]
+        elif mid:
+            mid[draw(st.integers(0, len(mid) - 1))] = draw(st.sampled_from("ACGT"))
+    mid = "".join(mid)
+    left = draw(st.text(alphabet="ACGT", max_size=8)) if t in ("back", "niback", "suffix", "rightmost") else ""
+    right = draw(st.text(alphabet="ACGT", max_size=8)) if t in ("back", "prefix", "rightmost") else ""
+    return {"sub": "complete", "adapter": spec, "read": left + mid + right, "labels": ["plant:within-tolerance"]}
+
+
+@st.composite
 def complete_case(draw):
+    if draw(st.integers(0, 2)) == 0:
+        return draw(within_tolerance_case())
     spec = draw(gen.adapter_spec(max_len=10, long_tail=False))
     if draw(st.integers(0, 9)) == 0:
         # a longer adapter now and then (DP oracle up to 30 x 60)
